@@ -1,5 +1,351 @@
-import CachedModel
+/-
+  C04  Delete hides the key immediately and releases it completely.
+
+    * `C04_hidden_at_once`      the moment `delete(k)` returns — whatever it returns: a pending acknowledgement, a
+                                parked call (queue full), or an error (worker dead) — the stored entry of `k` carries
+                                the soft-delete flag and every read of `k` (get, multi-get: `readKey`) misses;
+    * `C04_soft_is_permanent`   no event ever clears the flag of that incarnation: in one step the entry disappears or
+                                stays flagged WITH THE SAME ID (a new id needs a step of its own, after the removal);
+      `C04_never_read_again`    hence along every sequence of events no entry with that id is ever readable again:
+                                a value read for `k` later comes from another incarnation (a later put);
+    * `C04_released`            executing the delete: accepted; the key, its charge and its index entry are gone, the
+                                total falls by exactly the charged weight, nothing else moves
+                                (`C04_released_inv`: under the invariants the entry IS charged, and no index entry of
+                                its id is left at all); `C04_worker_executes_delete`: the worker step around it;
+    * `C04_absent_rejected`     deleting an absent key: rejected with `KeyDoesNotExist`, the state is unchanged;
+    * `C04_can_put_again`       after the release a put of `k` is not refused as existing, admission alone decides.
+-/
+import CachedProofs.Lemmas.TtlInv
+import CachedProofs.Properties.C07
 
 namespace Cached
+
+/-! ### hidden at once -/
+
+/-- what `delete(k)` can return -/
+def Out.isDeleteReturn : Out → Prop
+  | .ack _ .pending => True     -- queued: acknowledgement still pending
+  | .parked => True             -- the caller blocks at the full queue (the flag is already set)
+  | .err => True                -- the worker is gone (the flag is set all the same)
+  | _ => False
+
+/-- **Delete hides the key immediately**: when `delete(k)` returns — before the worker has seen the command, even if
+    the call parks or fails — the entry of `k` is flagged, and every read of `k` returns nothing (and counts a miss). -/
+theorem C04_hidden_at_once (s : State) (c k : Nat) (e : Entry) (hsh : s.shutting = false)
+    (hk : s.store.get? k = some e) :
+    (clientDelete s c k).1.store.get? k = some { e with soft := true } ∧
+    (clientDelete s c k).2.isDeleteReturn ∧
+    ∀ o : Oracle, ∃ s'', readKey (clientDelete s c k).1 k o = .ok (s'', none, o) := by
+  have hcd : clientDelete s c k =
+      sendCmd { s with store := s.store.set k { e with soft := true } } c (.delete k) := by
+    simp [clientDelete, hsh, hk]
+  have hst : (clientDelete s c k).1.store.get? k = some { e with soft := true } := by
+    rw [hcd, (sendCmd_fields _ c _).2.1]
+    simp
+  refine ⟨hst, ?_, ?_⟩
+  · rw [hcd]
+    unfold sendCmd
+    split
+    · trivial
+    · split <;> trivial
+  · intro o
+    unfold readKey
+    rw [hst]
+    simp [Entry.alive]
+
+/-- the same through the API call: `get(k)` right after `delete(k)` returns `None` -/
+theorem C04_get_after_delete (s : State) (c k : Nat) (e : Entry) (hsh : s.shutting = false)
+    (hk : s.store.get? k = some e) (o : Oracle) :
+    ∃ s'', clientGet (clientDelete s c k).1 k o = .ok (s'', .value none, o) := by
+  obtain ⟨_, _, h3⟩ := C04_hidden_at_once s c k e hsh hk
+  obtain ⟨s'', hr⟩ := h3 o
+  have hsh' : (clientDelete s c k).1.shutting = false := by
+    have hcd : clientDelete s c k =
+        sendCmd { s with store := s.store.set k { e with soft := true } } c (.delete k) := by
+      simp [clientDelete, hsh, hk]
+    rw [hcd]
+    unfold sendCmd
+    split
+    · exact hsh
+    · split <;> exact hsh
+  refine ⟨s'', ?_⟩
+  unfold clientGet
+  simp only [hsh', Bool.false_eq_true, if_false]
+  rw [hr]
+
+/-! ### the flag is permanent -/
+
+/-- **The soft-delete flag of an incarnation is never cleared.**  In one event the flagged entry of `k` either
+    disappears or stays flagged with the same id.  (This is stronger than "flagged or another id": a key cannot be
+    removed and stored again in one event, so a new id only appears after the old entry was removed.) -/
+theorem C04_soft_is_permanent {s s' : State} {ev : Ev} {o o' : Oracle} {out : Out}
+    (hs : step s ev o = .ok (s', out, o')) {k : Nat} {e : Entry} (hk : s.store.get? k = some e)
+    (hsoft : e.soft = true) :
+    s'.store.get? k = none ∨ ∃ e', s'.store.get? k = some e' ∧ e'.soft = true ∧ e'.id = e.id := by
+  rcases (evo_step hs k).key with h | h | ⟨e0, e', h0, h1, h2, h3⟩ | ⟨h0, _⟩
+  · exact Or.inr ⟨e, by rw [h, hk], hsoft, rfl⟩
+  · exact Or.inl h
+  · rw [hk] at h0
+    simp only [Option.some.injEq] at h0
+    subst h0
+    exact Or.inr ⟨e', h1, h3 hsoft, h2⟩
+  · rw [hk] at h0; cases h0
+
+/-- the form asked for: afterwards the key is absent, or still flagged, or belongs to another incarnation -/
+theorem C04_soft_is_permanent' {s s' : State} {ev : Ev} {o o' : Oracle} {out : Out}
+    (hs : step s ev o = .ok (s', out, o')) {k : Nat} {e : Entry} (hk : s.store.get? k = some e)
+    (hsoft : e.soft = true) :
+    s'.store.get? k = none ∨ ∃ e', s'.store.get? k = some e' ∧ (e'.soft = true ∨ e'.id ≠ e.id) := by
+  rcases C04_soft_is_permanent hs hk hsoft with h | ⟨e', h1, h2, _⟩
+  · exact Or.inl h
+  · exact Or.inr ⟨e', h1, Or.inl h2⟩
+
+/-- **A deleted incarnation is never read again.**  From a state (with the accounting invariant, e.g. any reachable
+    one) in which the entry of `k` with id `i` is flagged, along every sequence of events: whenever `k` holds an entry
+    with id `i` it is still flagged, hence not alive; so every value a read of `k` returns comes from an entry with
+    another id — a later put. -/
+theorem C04_never_read_again {s s' : State} (h : Inv s) {k : Nat} {e : Entry} (hk : s.store.get? k = some e)
+    (hsoft : e.soft = true) (l : List (Ev × Oracle)) (hr : runEvents s l = .ok s') :
+    (∀ e', s'.store.get? k = some e' → e'.id = e.id → e'.soft = true ∧ e'.alive s'.now = false) ∧
+    (∀ (o o' : Oracle) (s'' : State) (v : Nat), readKey s' k o = .ok (s'', some v, o') →
+      ∃ e', s'.store.get? k = some e' ∧ e'.id ≠ e.id ∧ e'.value = v) := by
+  obtain ⟨h1, h2⟩ := h.stored_id hk
+  have b0 : Buried e.id k s := by
+    refine ⟨h1, h2, ?_⟩
+    intro e' he' _
+    rw [hk] at he'
+    simp only [Option.some.injEq] at he'
+    subst he'; exact hsoft
+  obtain ⟨_, _, b3⟩ := buried_run l b0 hr
+  refine ⟨?_, ?_⟩
+  · intro e' he' hid
+    have := b3 e' he' hid
+    exact ⟨this, by simp [Entry.alive, this]⟩
+  · intro o o' s'' v hread
+    obtain ⟨e', he', halive, hv⟩ := readable_present s' s'' k o o' v hread
+    refine ⟨e', he', ?_, hv⟩
+    intro hid
+    have := b3 e' he' hid
+    simp [Entry.alive, this] at halive
+
+/-! ### released completely -/
+
+/-- **Executing the delete of a present key releases it completely**: the answer is `Accepted` (no evictions, no
+    sample activity); the key is gone and no other key is touched; its id is un-charged and no other charge is touched;
+    the total falls by exactly the weight the id was charged with (and the limit stays); the index entry for the
+    entry's deadline is gone and no other index entry is touched. -/
+theorem C04_released (s : State) (k : Nat) (e : Entry) (hk : s.store.get? k = some e) :
+    ∃ s', workerDelete s k = .done s' .accepted none [] [] ∧
+      s'.store.get? k = none ∧ (∀ k', k' ≠ k → s'.store.get? k' = s.store.get? k') ∧
+      s'.adm.kw.get? e.id = none ∧ (∀ i, i ≠ e.id → s'.adm.kw.get? i = s.adm.kw.get? i) ∧
+      (∀ wk, s.adm.kw.get? e.id = some wk → s'.adm.used = s.adm.used - wk.weight) ∧
+      (s.adm.kw.get? e.id = none → s'.adm.used = s.adm.used) ∧ s'.adm.max = s.adm.max ∧
+      (∀ x, e.expiry = some x → s'.ttl.get? (shardOf s.cfg x, e.id) = none ∧
+        ∀ a, a ≠ (shardOf s.cfg x, e.id) → s'.ttl.get? a = s.ttl.get? a) ∧
+      (e.expiry = none → s'.ttl = s.ttl) ∧ s'.nextId = s.nextId ∧ s'.queue = s.queue ∧ s'.worker = s.worker := by
+  have hstore : ∀ k', k' ≠ k → (s.store.del k).get? k' = s.store.get? k' :=
+    fun k' h => AMap.get?_del_other _ (fun heq => h heq.symm)
+  have hkw : ∀ i, i ≠ e.id → (s.adm.kw.del e.id).get? i = s.adm.kw.get? i :=
+    fun i h => AMap.get?_del_other _ (fun heq => h heq.symm)
+  have httl : ∀ (m : AMap (Nat × Nat) Nat) (x : Nat) (a : Nat × Nat), a ≠ (shardOf s.cfg x, e.id) →
+      (m.del (shardOf s.cfg x, e.id)).get? a = m.get? a :=
+    fun m x a h => AMap.get?_del_other _ (fun heq => h heq.symm)
+  unfold workerDelete
+  rw [hk]
+  dsimp only
+  cases hg : s.adm.kw.get? e.id with
+  | none =>
+    rw [Adm.delete_none hg]
+    dsimp only
+    cases hx : e.expiry with
+    | none =>
+      refine ⟨_, rfl, by simp, hstore, hg, fun _ _ => rfl, ?_, fun _ => rfl, rfl, ?_, fun _ => rfl, rfl, rfl, rfl⟩
+      · intro wk h; cases h
+      · intro x h; cases h
+    | some x =>
+      refine ⟨_, rfl, by simp [ttlDelete], hstore, hg, fun _ _ => rfl, ?_, fun _ => rfl, rfl, ?_, ?_, rfl, rfl, rfl⟩
+      · intro wk h; cases h
+      · intro y h
+        simp only [Option.some.injEq] at h
+        subst h
+        exact ⟨by simp [ttlDelete], fun a ha => httl _ _ a ha⟩
+      · intro h; cases h
+  | some wk =>
+    rw [Adm.delete_some hg]
+    dsimp only
+    cases hx : e.expiry with
+    | none =>
+      refine ⟨_, rfl, by simp, hstore, by simp, hkw, ?_, ?_, rfl, ?_, fun _ => rfl, rfl, rfl, rfl⟩
+      · intro wk' h
+        simp only [Option.some.injEq] at h
+        subst h; rfl
+      · intro h; cases h
+      · intro x h; cases h
+    | some x =>
+      refine ⟨_, rfl, by simp [ttlDelete], hstore, by simp [ttlDelete], hkw, ?_, ?_, rfl, ?_, ?_, rfl, rfl, rfl⟩
+      · intro wk' h
+        simp only [Option.some.injEq] at h
+        subst h; rfl
+      · intro h; cases h
+      · intro y h
+        simp only [Option.some.injEq] at h
+        subst h
+        exact ⟨by simp [ttlDelete], fun a ha => httl _ _ a ha⟩
+      · intro h; cases h
+
+/-- Under the invariant of the index (every reachable state, whatever the worker's past): the deleted entry WAS
+    charged, under this very key, so its weight really is released; and afterwards no index entry of its id is left
+    in any shard — nothing of this incarnation will ever come due. -/
+theorem C04_released_inv {s : State} (t : TtlInv s) (k : Nat) (e : Entry) (hk : s.store.get? k = some e) :
+    ∃ s' wk, workerDelete s k = .done s' .accepted none [] [] ∧
+      s.adm.kw.get? e.id = some wk ∧ wk.key = k ∧ s'.adm.used = s.adm.used - wk.weight ∧
+      s'.adm.kw.get? e.id = none ∧ s'.store.get? k = none ∧ ∀ sh, s'.ttl.get? (sh, e.id) = none := by
+  obtain ⟨s', h0, h1, _, h3, _, h5, _, _, h8, h9, _⟩ := C04_released s k e hk
+  obtain ⟨wk, hw, hkey⟩ := t.charged hk
+  refine ⟨s', wk, h0, hw, hkey, h5 wk hw, h3, h1, ?_⟩
+  intro sh
+  cases hx : e.expiry with
+  | none =>
+    rw [h9 hx]
+    cases hg : s.ttl.get? (sh, e.id) with
+    | none => rfl
+    | some y =>
+      have := ((t.sync hk sh y).mp hg).1
+      rw [hx] at this; cases this
+  | some x =>
+    obtain ⟨a1, a2⟩ := h8 x hx
+    by_cases hsh : sh = shardOf s.cfg x
+    · rw [hsh]; exact a1
+    · rw [a2 (sh, e.id) (by intro heq; simp only [Prod.mk.injEq] at heq; exact hsh heq.1)]
+      cases hg : s.ttl.get? (sh, e.id) with
+      | none => rfl
+      | some y =>
+        obtain ⟨b1, b2⟩ := (t.sync hk sh y).mp hg
+        rw [hx] at b1
+        simp only [Option.some.injEq] at b1
+        subst b1
+        exact absurd b2 hsh
+
+/-- **Deleting a key that is not in the cache** is answered `Rejected(KeyDoesNotExist)` and changes nothing at all. -/
+theorem C04_absent_rejected (s : State) (k : Nat) (hk : s.store.get? k = none) :
+    workerDelete s k = .done s (.rejected .keyDoesNotExist) none [] [] := by
+  simp [workerDelete, hk]
+
+/-- The worker step that executes a `Delete`: it runs `workerDelete` on the state without the command and completes
+    the command's acknowledgement with the status — `Accepted` iff the key was (physically) present,
+    `Rejected(KeyDoesNotExist)` iff it was absent; the worker never panics on a delete. -/
+theorem C04_worker_executes_delete (s : State) (o : Oracle) (k : Nat) (h : Option Nat) (q : List (Cmd × Option Nat))
+    (hw : s.worker = .running) (hq : s.queue = (.delete k, h) :: q) :
+    ∃ s1 st, workerDelete { s with queue := q } k = .done s1 st none [] [] ∧
+      workerStep s o = .ok ({ s1 with acks := setAck s1.acks h st }, .worked "Delete" st none [] [], o) ∧
+      (st = .accepted ↔ (s.store.get? k).isSome = true) ∧ (st = .rejected .keyDoesNotExist ↔ s.store.get? k = none) := by
+  have key : ∀ s1 st, workerDelete { s with queue := q } k = .done s1 st none [] [] →
+      workerStep s o = .ok ({ s1 with acks := setAck s1.acks h st }, .worked "Delete" st none [] [], o) := by
+    intro s1 st h1
+    unfold workerStep
+    split
+    · rename_i hd
+      rw [hw] at hd; cases hd
+    · rename_i he _
+      rw [hq] at he; cases he
+    · rename_i hd _
+      rw [hw] at hd; cases hd
+    · rename_i cmd hh q' hw' hq'
+      rw [hq] at hq'
+      cases hq'
+      dsimp only
+      rw [h1]
+  cases hk : s.store.get? k with
+  | none =>
+    have h1 := C04_absent_rejected { s with queue := q } k hk
+    exact ⟨_, _, h1, key _ _ h1, by simp, by simp⟩
+  | some e =>
+    obtain ⟨s', h1, _⟩ := C04_released { s with queue := q } k e hk
+    exact ⟨s', _, h1, key _ _ h1, by simp, by simp⟩
+
+/-! ### the key can be put again -/
+
+/-- **After the release the key can be put again**: in the state the executed delete leaves, `k` is absent, so none of
+    the four put variants is answered `KeyAlreadyExists` on the spot, and when the worker executes such a put (the key
+    still being absent) the status is admission's alone: accepted, not enough space, or heavier than the cache. -/
+theorem C04_can_put_again (s : State) (k : Nat) (e : Entry) (hk : s.store.get? k = some e) :
+    ∃ s', workerDelete s k = .done s' .accepted none [] [] ∧ s'.store.get? k = none ∧
+      (∀ (c v ttl : Nat) (w : Int),
+        (clientPut s' c k v).2.isExists = false ∧ (clientPutW s' c k v w).2.isExists = false ∧
+        (clientPutTtl s' c k v ttl).2.isExists = false ∧ (clientPutWTtl s' c k v w ttl).2.isExists = false) ∧
+      (∀ (s2 s3 : State) (id hash v : Nat) (w : Int) (ttl : Option Nat) (o o' : Oracle) (st : Status) (ie : Option Nat)
+          (pp : List SKey) (ev : List Evicted), s2.store.get? k = none →
+        workerPut s2 id hash w k v ttl o = .ok (.done s3 st ie pp ev, o') →
+        st = .accepted ∨ st = .rejected .noSpace ∨ st = .rejected .tooHeavy) := by
+  obtain ⟨s', h0, h1, _⟩ := C04_released s k e hk
+  refine ⟨s', h0, h1, ?_, ?_⟩
+  · intro c v ttl w
+    exact C07_absent_not_rejected_on_the_spot s' c k v ttl w h1
+  · intro s2 s3 id hash v w ttl o o' st ie pp ev hk2 hp
+    exact C07_absent_decided_by_admission s2 s3 id hash k v w ttl o o' st ie pp ev hk2 hp
+
+/-! ### non-vacuity: a concrete history -/
+
+def c04Init : State :=
+  State.init { maxWeight := 100, shards := 2, cmdCap := 4, poolSize := 1, bufSize := 2, counters := 2 } 5000000000 [1, 2, 3, 4]
+
+def c04O : Oracle := {}
+
+/-- put(1) acknowledged -/
+def c04Put : List (Ev × Oracle) := [(.putW 0 1 10 5, c04O), (.worker, c04O)]
+
+/-- before the delete the key is read (hypotheses of `C04_hidden_at_once`: present, not shutting down) -/
+example :
+    (match runEvents c04Init c04Put with
+     | .ok s =>
+       (match step s (.get 1) { pool := [0] } with
+        | .ok (_, .value v, _) => decide (v = some 10 ∧ s.shutting = false ∧ s.adm.used = 5 ∧ s.acks = [.accepted])
+        | _ => false)
+     | _ => false) = true := by decide
+
+/-- delete(1) has returned, the worker has not executed it yet: the read returns nothing, the weight is still
+    counted, the delete's acknowledgement is still pending -/
+example :
+    (match runEvents c04Init (c04Put ++ [(.delete 0 1, c04O)]) with
+     | .ok s =>
+       (match step s (.get 1) c04O with
+        | .ok (_, .value v, _) =>
+          decide (v = none ∧ s.store.get? 1 = some ⟨10, 1, none, true⟩ ∧ s.adm.used = 5 ∧ s.acks = [.accepted, .pending])
+        | _ => false)
+     | _ => false) = true := by decide
+
+/-- the worker executes the delete: accepted, the key is gone, the weight is back to 0 -/
+example :
+    (match runEvents c04Init (c04Put ++ [(.delete 0 1, c04O), (.worker, c04O)]) with
+     | .ok s => decide (s.store.get? 1 = none ∧ s.adm.used = 0 ∧ s.adm.kw.get? 1 = none ∧ s.acks = [.accepted, .accepted])
+     | _ => false) = true := by decide
+
+/-- a second delete: rejected, key does not exist, nothing changes -/
+example :
+    (match runEvents c04Init (c04Put ++ [(.delete 0 1, c04O), (.worker, c04O), (.delete 0 1, c04O), (.worker, c04O)]) with
+     | .ok s => decide (s.store.get? 1 = none ∧ s.adm.used = 0 ∧
+                        s.acks = [.accepted, .accepted, .rejected .keyDoesNotExist])
+     | _ => false) = true := by decide
+
+/-- the key is put again: accepted, under a new id -/
+example :
+    (match runEvents c04Init (c04Put ++ [(.delete 0 1, c04O), (.worker, c04O), (.delete 0 1, c04O), (.worker, c04O),
+                                          (.putW 0 1 11 4, c04O), (.worker, c04O)]) with
+     | .ok s => decide (s.store.get? 1 = some ⟨11, 2, none, false⟩ ∧ s.adm.used = 4 ∧
+                        s.acks = [.accepted, .accepted, .rejected .keyDoesNotExist, .accepted])
+     | _ => false) = true := by decide
+
+/-- delete of a key with a time-to-live: its index entry goes with it (`C04_released`, `C04_released_inv`) -/
+example :
+    (match runEvents c04Init [(.putWTtl 0 1 10 5 1000000000, c04O), (.worker, c04O)] with
+     | .ok s =>
+       (match runEvents s [(.delete 0 1, c04O), (.worker, c04O)] with
+        | .ok s' => decide (s.ttl = [((0, 1), 6000000000)] ∧ s'.ttl = [] ∧ s'.adm.used = 0 ∧ s'.store.get? 1 = none)
+        | _ => false)
+     | _ => false) = true := by decide
+
+/-- hypotheses of `C04_never_read_again`: a reachable state (so `Inv` holds) with a flagged entry -/
+example (s : State) (h : runEvents c04Init (c04Put ++ [(.delete 0 1, c04O)]) = .ok s) : Inv s :=
+  inv_reach (reach_runEvents _ Reach.init h)
 
 end Cached
